@@ -19,9 +19,18 @@ def _fn(unit, name, allow_many=False):
 def local_aliases(fn):
     """did -> did of the variable it is a (cast) copy of, for once-initialised locals."""
     out = {}
+    from .ir import value_leaves
     for did, init in RA.local_inits(fn).items():
         v = init.strip()
-        if v.kind == "DeclRefExpr" and v.get("dk") in ("Var", "ParmVar") and v.get("local") and not RA._reassigned(fn, did):
+        if not (v.kind == "DeclRefExpr"):
+            # a cast spelled as a small accessor (`as_leaf(n)`, folded in): what it returns
+            ls = value_leaves(fn, init)
+            if len(ls) == 1:
+                v = std_unwrap(ls[0])
+                hops = 0
+                while v.kind in ("CXXStaticCastExpr", "CStyleCastExpr", "ImplicitCastExpr", "CXXReinterpretCastExpr") and v.children and hops < 6:
+                    v, hops = std_unwrap(v.children[0]), hops + 1
+        if v.kind == "DeclRefExpr" and v.get("dk") in ("Var", "ParmVar") and v.get("local") and not RA._reassigned(fn, did) and v.d["d"] != did:
             out[did] = v.d["d"]
     return out
 
@@ -308,6 +317,8 @@ def check_C09(ctx, unit):
                     continue
                 yd = resolve_alias(al, yd)
                 idx = RA.resolve_local(f, n.children[1], inits)
+                if idx.kind == "DeclRefExpr" and idx.get("local") and RA._reassigned(f, idx.d["d"]):
+                    idx = std_unwrap(RA.resolve_at(f, n.children[1]))      # (an index variable assigned once per iteration)
                 hops_ = 0
                 while idx.kind == "DeclRefExpr" and idx.d.get("d") in f.bind_map() and hops_ < 6:
                     # parameter of a folded helper (entry_at(leaf, idx)): the caller's index
@@ -318,7 +329,7 @@ def check_C09(ctx, unit):
                     ctx.inst("E.index-of-own-depth", inst, True, n.loc, "initialising loop over all slots", f, nontrivial=False)
                     continue
                 ok, why = False, ""
-                if idx.kind == "CXXMemberCallExpr" and idx.callee and idx.callee["n"] == "idx_of":
+                if idx.kind in ("CXXMemberCallExpr", "CallExpr") and idx.callee and idx.callee["n"] == "idx_of":
                     karg, darg = std_unwrap(idx.args[0]), idx.args[1]
                     # depth must be Y.depth (alias-resolved) or the value assigned to fresh Y.depth
                     dp = path(darg)
@@ -358,7 +369,9 @@ def check_C09(ctx, unit):
                 ok = ci in allidx
                 if not ok:
                     ix = RA.resolve_local(f, n.children[1], inits)
-                    if ix.kind == "CXXMemberCallExpr" and ix.callee and ix.callee["n"] == "idx_of":
+                    if ix.kind == "DeclRefExpr" and ix.get("local") and RA._reassigned(f, ix.d["d"]):
+                        ix = std_unwrap(RA.resolve_at(f, n.children[1]))
+                    if ix.kind in ("CXXMemberCallExpr", "CallExpr") and ix.callee and ix.callee["n"] == "idx_of":
                         ka = std_unwrap(ix.args[0])
                         dp = path(ix.args[1])
                         ok = ka.kind == "DeclRefExpr" and ka.d["d"] in kparam and bool(dp) and dp[-1] == "depth"
@@ -374,7 +387,7 @@ def check_C09(ctx, unit):
                         l, r = x.children
                         for a, b in ((l, r), (r, l)):
                             a_, b_ = a.strip(), b.strip()
-                            if a_.kind == "CXXMemberCallExpr" and a_.callee and a_.callee["n"] == "pfx_of":
+                            if a_.kind in ("CXXMemberCallExpr", "CallExpr") and a_.callee and a_.callee["n"] == "pfx_of":
                                 pb = path(b_)
                                 pd = path(a_.args[1])
                                 if pb and pb[-1] == "prefix" and pd and pd[-1] == "depth" and pd[0] == pb[0]:
@@ -930,3 +943,130 @@ def check_leaf_walk_total(ctx, unit, rule="E.leaf-walk-total"):
 
 def canon_this_n(f):
     return "this._n"
+
+
+def check_depth_shifts(ctx, unit, rule="B3.depth-shift"):
+    """Every shift in the radix tree whose count is computed from a node's `depth` (outside pfx_of / idx_of, which B3.shift-range
+    decides with their parameter domains) is evaluated for every depth a node can have, 0..15, under the decisions on that
+    depth that dominate it: the count stays inside [0, 64).  `x << (64 - depth * 4)` is a shift by 64 for a root at depth 0."""
+    ctx.rule(rule, "rcu_radixtree: a shift count computed from a node's depth is within [0, 64) for every depth 0..15 that the "
+             "dominating decisions admit", 0)
+    fns = [f for f in unit.functions if (f.owner_cls or "").startswith("frg::rcu_radixtree") and f.blocks and f.name not in ("pfx_of", "idx_of")]
+    if not fns:
+        raise AnalysisBroken("anchor vanished: members of rcu_radixtree")
+
+    def ev(x, d):
+        x = std_unwrap(x)
+        hops = 0
+        while x.kind in ("ImplicitCastExpr", "CStyleCastExpr", "CXXStaticCastExpr", "CXXFunctionalCastExpr", "ParenExpr") and x.children and hops < 8:
+            x, hops = std_unwrap(x.children[0]), hops + 1
+        p = path(x)
+        if p and p[-1] == "depth":
+            return d
+        c = x.cv()
+        if c is not None:
+            return c
+        if x.kind == "DeclRefExpr" and x.get("local"):
+            i = RA.local_inits(x.fn).get(x.d["d"])
+            if i is not None and not RA._reassigned(x.fn, x.d["d"]):
+                return ev(i, d)
+            return None
+        if x.kind == "BinaryOperator" and x.op in ("+", "-", "*") and len(x.children) == 2:
+            a, b = ev(x.children[0], d), ev(x.children[1], d)
+            if a is None or b is None:
+                return None
+            return a + b if x.op == "+" else (a - b if x.op == "-" else a * b)
+        return None
+    n_sites, bad = 0, []
+    for f in fns:
+        for s in f.all_nodes():
+            if s.kind not in ("BinaryOperator", "CompoundAssignOperator") or s.get("op") not in ("<<", ">>", "<<=", ">>="):
+                continue
+            cnt = s.children[1]
+            if not any((path(y) or ("",))[-1] == "depth" for y in [cnt] + list(cnt.walk())) and \
+                    not any(y.kind == "DeclRefExpr" and y.get("local") and y.d["d"] in RA.local_inits(f) and any(
+                        (path(z) or ("",))[-1] == "depth" for z in RA.local_inits(f)[y.d["d"]].walk()) for y in [std_unwrap(cnt)] + list(cnt.walk())):
+                continue
+            n_sites += 1
+            pos = f.positions()
+            a, hops = s, 0
+            while a is not None and a.id not in pos and hops < 12:
+                a, hops = f.parent(a), hops + 1
+            facts = flow.facts_at(f, a.id) if a is not None else []
+            for d in range(16):
+                feasible = True
+                for c, t in facts:
+                    v = flow.sem_eval(c, lambda leaf, d=d: (d if (path(leaf) or ("",))[-1] == "depth" else None))
+                    if v is not None and bool(v) != bool(t):
+                        feasible = False
+                if not feasible:
+                    continue
+                v = ev(cnt, d)
+                if v is not None and not (0 <= v < 64):
+                    bad.append((s.loc, "%s: shift by %s at %s is a shift by %d for depth %d" % (f.name, _ids(canon(cnt)) if "_ids" in globals() else canon(cnt), s.loc.split("/")[-1], v, d), f))
+                    break
+    seen = set()
+    for loc, why, f in bad:
+        if why not in seen:
+            seen.add(why)
+            ctx.inst(rule, why[:140], False, loc, why, f)
+    ctx.inst(rule, "rcu_radixtree: shifts by a depth-derived count", not bad, fns[0].loc,
+             "%d such shifts outside pfx_of/idx_of, %d out of range for some depth" % (n_sites, len(bad)), None, nontrivial=bool(n_sites))
+
+
+def check_insert_forwards(ctx, unit, rule="A2.insert-constructs-in-place"):
+    """insert(k, args...) is find_or_insert(k, args...): the value is constructed from the caller's arguments BEFORE its mask
+    bit is published.  An insert that lets find_or_insert publish a default-constructed value and assigns the real one
+    afterwards shows concurrent readers a value that was never inserted."""
+    ctx.rule(rule, "rcu_radixtree::insert hands all its arguments to find_or_insert and stores nothing through the entry pointer it "
+             "gets back (the published value is the inserted one, not a placeholder assigned later)", 1)
+    fs = [f for f in unit.functions if (f.owner_cls or "") == "frg::rcu_radixtree" and f.name == "insert" and f.blocks]
+    if not fs:
+        raise AnalysisBroken("anchor vanished: rcu_radixtree::insert")
+    for f in fs:
+        calls = [n for n in f.all_nodes() if n.is_call() and n.callee and n.callee["n"] == "find_or_insert"]
+        bad = []
+        if not calls:
+            bad.append("does not call find_or_insert")
+        for c in calls:
+            if len(c.args) != len(f.params()):
+                bad.append("find_or_insert is handed %d of the %d arguments at %s" % (len(c.args), len(f.params()), c.loc.split("/")[-1]))
+        for n in f.all_nodes():
+            lhs = None
+            if n.kind == "BinaryOperator" and n.op == "=":
+                lhs = n.children[0]
+            elif n.kind == "CXXOperatorCallExpr" and n.callee and n.callee.get("op") == "=" and n.args:
+                lhs = n.args[0]
+            if lhs is not None:
+                l = std_unwrap(lhs)
+                if l.kind == "UnaryOperator" and l.op == "*" or (l.kind == "MemberExpr" and l.get("arrow")):
+                    bad.append("stores through a pointer at %s after the entry was published" % n.loc.split("/")[-1])
+        ctx.inst(rule, "%s(%s)" % (f.uq, ", ".join(p["t"] for p in f.params())), not bad, f.loc,
+                 "; ".join(bad[:2]) if bad else "forwards %d arguments, no store through the returned entry" % len(f.params()), f)
+
+
+def check_walk_slots(ctx, unit, rule="E.index-of-own-depth"):
+    """The leaf walk (first_leaf / next_leaf, the iterator) finds a node's slot in its parent by scanning the parent's links.
+    If a slot is COMPUTED there, it is idx_of(prefix or key, depth) with the depth FIELD of the node whose links are walked
+    next: arithmetic on a node's own depth (`n->depth - 1`) is not its parent's depth -- with path compression the parent
+    may sit several levels higher."""
+    fs = [f for f in unit.functions if (f.owner_cls or "").startswith("frg::rcu_radixtree") and f.blocks
+          and f.name not in ("find", "find_or_insert", "erase", "pfx_of", "idx_of", "insert")]
+    k = 0
+    for f in fs:
+        al = local_aliases(f)
+        subscripted = set()
+        for x in f.events():
+            if x.kind == "ArraySubscriptExpr":
+                bp = path(x.children[0])
+                if bp and bp[-1] == "links" and root_did(bp) is not None:
+                    subscripted.add(resolve_alias(al, root_did(bp)))
+        for c in f.all_nodes():
+            if not (c.kind in ("CXXMemberCallExpr", "CallExpr") and c.callee and c.callee["n"] == "idx_of" and len(c.args) >= 2):
+                continue
+            k += 1
+            dp = path(c.args[-1])
+            own = bool(dp) and dp[-1] == "depth" and root_did(dp) is not None
+            ok = own and (not subscripted or resolve_alias(al, root_did(dp)) in subscripted)
+            ctx.inst(rule, "%s: computed slot #%d (leaf walk)" % (f.uq, k), ok, c.loc,
+                     "slot %s: the depth is the depth field of a node whose links are subscripted here: %s" % (canon(c)[:80], ok), f)
